@@ -49,7 +49,9 @@ def _impl():
     import bldfm.interface as itf
     import bldfm.utils as ut
     from bldfm.plotting import _geo as geo
+    import logging
 
+    logging.disable(logging.CRITICAL)  # "No tke provided" etc.: the OAAHOC default is intended here
     return cp, itf, ut, geo
 
 
@@ -213,8 +215,12 @@ def gen_plumb(ctx):
         dom = {"nx": 8, "ny": rng.choice([8, 12]), "xmax": 100.0, "ymax": rng.choice([100.0, 150.0]), "nz": 4, "modes": [8, 8]}
         if k % 7 != 6:
             dom["ref_lat"], dom["ref_lon"] = rlat, rlon
+        closure = rng.choice(["MOST", "MOSTM", "CONSTANT", "OAAHOC"])
+        if closure == "OAAHOC" and "ustar" not in met:
+            met.pop("z0", None)  # this closure is defined by ustar and tke; z0 is derived
+            met["ustar"] = 0.35
         raw = {"domain": dom, "towers": towers, "met": met,
-               "solver": {"closure": rng.choice(["MOST", "MOSTM", "CONSTANT"]), "footprint": bool(k % 2), "precision": "double"}}
+               "solver": {"closure": closure, "footprint": bool(k % 2), "precision": "double"}}
         cases.append({"raw": raw, "met_index": rng.randrange(nsteps), "tower": rng.randrange(ntw), "has_ref": "ref_lat" in dom})
     return cases
 
@@ -311,11 +317,15 @@ def e2e_run(cp, itf, geo, P, wd, xmax, ymax):
 
 
 def resolve_domain(cp, itf, geo, P):
-    """Measure the footprint's peak distance and size the domain in units of it.  Returns (xmax, ymax, peak) or None
-    when the configuration cannot be resolved with this grid."""
+    """Measure the footprint's peak distance and size the domain in units of it.  Returns (xmax, ymax, peak), or
+    None when the configuration cannot be resolved with this grid, or ("misplaced", record) when it cannot be
+    resolved AND the footprint of the west wind used for sizing does not even lie west of the tower: with the tower
+    in the middle of the domain that bearing is 270 deg by symmetry whatever the resolution, so a footprint that has
+    been moved somewhere else must not be able to hide behind "unresolved"."""
     nx, ny, mx, my = GRIDS[P["grid"]]
     P["nx"], P["ny"] = nx, ny
     pk = 12.0 * P["zm"]
+    last = None
     for it in range(6):
         xmax, ymax = mx * pk, my * pk
         r = e2e_run(cp, itf, geo, P, 270.0, xmax, ymax)
@@ -325,7 +335,10 @@ def resolve_domain(cp, itf, geo, P):
         new = max(r["peak"], min(dx, dy))
         if 2 * max(dx, dy) <= r["peak"] <= min(xmax, ymax) / 20:
             return xmax, ymax, r["peak"]
+        last = (270.0, r["bearing"], r["err"], xmax, ymax, r["peak"])
         pk = new
+    if last is not None and abs(last[2]) > BEARING_TOL:
+        return ("misplaced", last)
     return None
 
 
@@ -350,6 +363,8 @@ def sweep_one(cp, itf, geo, P, dirs):
     dom = resolve_domain(cp, itf, geo, P)
     if dom is None:
         return "skipped", []
+    if dom[0] == "misplaced":
+        return "resolved", [dom[1]]
     xmax, ymax, peak = dom
     recs = []
     for wd in dirs:
@@ -361,21 +376,31 @@ def sweep_one(cp, itf, geo, P, dirs):
 
 
 def smoke(ctx, cp, itf, geo):
-    P = {"closure": "MOST", "mol": 1e9, "U": 4.0, "ustar": 0.4, "zm": 3.0, "grid": "square", "halo_mult": 2.0, "ref": (50.95, 11.586)}
-    dirs = [0.0, 90.0, 180.0, 270.0, 30.0, 135.0, 200.0, 310.0]
-    try:
-        status, recs = sweep_one(cp, itf, geo, P, dirs)
-    except Exception as e:
-        ctx.fail("correspondence", "C08:e2e-smoke-raised", "the end-to-end smoke run raised %r" % e, hint={"e2e": P})
-        return 0, None
-    if status != "resolved":
-        ctx.fail("correspondence", "C08:e2e-smoke-unresolved", "the smoke configuration could not be resolved", hint={"e2e": P})
-        return 0, None
-    worst = max(abs(r[2]) for r in recs)
-    for wd, b, err, xmax, ymax, peak in recs:
-        if abs(err) > BEARING_TOL:
-            ctx.fail("correspondence", "C08:e2e-smoke-wd%g" % wd, "footprint centroid bearing %.2f deg for wind_dir %.1f" % (b, wd), hint={"e2e": P})
-    return len(recs), worst
+    """end-to-end smoke run in every check: MOST on eight directions, and every other closure the
+    interface accepts (MOSTM, CONSTANT, OAAHOC) on oblique directions, on square, oblong and anisotropic-cell grids"""
+    base = {"mol": 1e9, "U": 4.0, "ustar": 0.4, "zm": 3.0, "grid": "square", "halo_mult": 2.0, "ref": (50.95, 11.586)}
+    plan = [("MOST", "square", [0.0, 90.0, 180.0, 270.0, 30.0, 135.0, 200.0, 310.0]),
+            ("OAAHOC", "square", [0.0, 120.0, 250.0]), ("MOSTM", "oblong-y-anisotropic-cells", [60.0, 200.0]),
+            ("CONSTANT", "oblong-x", [120.0, 315.0])]
+    n, worst = 0, None
+    for closure, grid, dirs in plan:
+        P = dict(base, closure=closure, grid=grid)
+        try:
+            status, recs = sweep_one(cp, itf, geo, P, dirs)
+        except Exception as e:
+            ctx.fail("correspondence", "C08:e2e-smoke-raised-%s" % closure, "the end-to-end smoke run raised %r" % e, hint={"e2e": P})
+            continue
+        if status != "resolved":
+            if closure == "MOST":
+                ctx.fail("correspondence", "C08:e2e-smoke-unresolved", "the smoke configuration could not be resolved", hint={"e2e": P})
+            continue
+        n += len(recs)
+        w = max(abs(r[2]) for r in recs)
+        worst = w if worst is None else max(worst, w)
+        for wd, b, err, xmax, ymax, peak in recs:
+            if abs(err) > BEARING_TOL:
+                ctx.fail("correspondence", "C08:e2e-smoke-%s-wd%g" % (closure, wd), "footprint centroid bearing %.2f deg for wind_dir %.1f (closure %s)" % (b, wd, closure), hint={"e2e": P})
+    return n, worst
 
 
 def check(ctx):
@@ -453,7 +478,7 @@ def probe_interface_wind(cp, itf, ut, U, wd):
 def e2e_space(ctx):
     """covering design: every closure x stability x speed once, grids / heights / references / z0-vs-ustar rotated
     (Latin-square style) so that no two factors are aliased; default-halo twins for half of the MOST/MOSTM cases"""
-    closures = ["MOST", "MOSTM", "CONSTANT"]
+    closures = ["MOST", "MOSTM", "CONSTANT", "OAAHOC"]
     mols = [1e9, -30.0, -200.0, 60.0, 300.0] if ctx.thorough else [1e9, -50.0, 80.0]
     speeds = [1.5, 4.0, 9.0] if ctx.thorough else [2.0, 6.0]
     refs = [(50.95, 11.586), (-33.9, 18.4), (60.0, -150.0), (0.0, 0.0), (-60.0, 179.9)]
@@ -465,7 +490,7 @@ def e2e_space(ctx):
             for ui, U in enumerate(speeds):
                 P = {"closure": c, "mol": mol, "U": U, "zm": [3.0, 2.0, 8.0][(ci + 2 * mi + ui) % 3],
                      "grid": grids[(ci + mi + ui) % 3], "halo_mult": 2.0, "ref": refs[k % len(refs)]}
-                if (mi + 2 * ui + ci) % 4 == 3:
+                if (mi + 2 * ui + ci) % 4 == 3 and c != "OAAHOC":  # OAAHOC is defined by ustar and tke; z0 is derived
                     P["z0"] = 0.1
                 else:
                     P["ustar"] = U / (8.0 if (mi + ui) % 2 else 12.0)
